@@ -25,19 +25,21 @@ from . import tlc
 APALACHE = shutil.which("apalache-mc") or "/opt/veriftools/apalache/bin/apalache-mc"
 OUT = os.path.join(tlc.OUT, "apalache")
 
-# (name, init predicate, invariant, length)
+# (name, init predicate, invariant, length[, next-state operator])
 _STD = [("init", "Init", "IndInv", 0), ("step", "IndInit", "IndInv", 1), ("prop", "IndInit", "PropInv", 0)]
 _ACT = ("act", "IndInit", "PropAct", 1)
 # module -> obligations on the unchanged model, and per deviation constant (cinit predicate) the obligation that must fail
 SPECS = {
     "APA_ScenarioStore": {
         "cinit": "CInit", "obligations": _STD + [_ACT],
+        # Impl => Contract for every step from an IndInv state (PropRefines of MC_ScenarioStore); ~20-30 min, only with extra=True
+        "optional": [("refine", "IndInit", "InvRefines", 1, "NextRef")],
         "devs": [("CInitDev1", "step", "DEV_ListRemoveInterKeepsIncoming"), ("CInitDev2", "act", "DEV_PartialIntersection"),
                  ("CInitDev3", "act", "DEV_PartialNetwork"), ("CInitDev4", "step", "DEV_AddNetOnNonEmpty")]},
     "APA_Writers": {
         "cinit": "CInit", "obligations": _STD + [_ACT],
         "devs": [("CInitDev1", "act", "DEV_GlobalPrecision"), ("CInitDev2", "step", "DEV_AccumulatingRoot"),
-                 ("CInitDev3", "act", "DEV_NoTruncate")]},
+                 ("CInitDev3", "act", "DEV_NoTruncate"), ("CInitDev4", "act", "DEV_NetworkCached")]},
     "APA_Cache": {
         "cinit": "CInit", "obligations": _STD + [_ACT],
         "devs": [("CInitDev1", "step", "DEV_NoInvalidateOnPredictionTR"), ("CInitDev2", "step", "DEV_NoReindexOnNetworkTR"),
@@ -48,7 +50,7 @@ SPECS = {
 }
 
 
-def run(module, init, inv, length, cinit=None, tag="run", timeout=900, xmx="6g"):
+def run(module, init, inv, length, cinit=None, tag="run", timeout=900, xmx="6g", nxt=None):
     """One apalache-mc check. status: holds | counterexample | timeout | out-of-memory | error."""
     short = module[4:] if module.startswith("APA_") else module
     out_dir = os.path.join(OUT, short, tag)
@@ -58,6 +60,8 @@ def run(module, init, inv, length, cinit=None, tag="run", timeout=900, xmx="6g")
            "--run-dir=" + os.path.join(out_dir, "last")]
     if cinit:
         cmd.append("--cinit=" + cinit)
+    if nxt:
+        cmd.append("--next=" + nxt)
     cmd.append(module + ".tla")
     env = dict(os.environ)
     env["JVM_ARGS"] = "-Xmx%s" % xmx
@@ -90,7 +94,7 @@ def run(module, init, inv, length, cinit=None, tag="run", timeout=900, xmx="6g")
             "wall_s": wall, "rc": p.returncode, "out_dir": out_dir, "tail": out[-1500:]}
 
 
-def check_inductive(module, timeout=900, parallel=4, xmx="6g", devs=True):
+def check_inductive(module, timeout=900, parallel=4, xmx="6g", devs=True, extra=None):
     """Run the obligations of SPECS[module] (and the deviation variants).
 
     Returns dict(ok, wall_s, verdicts, note):
@@ -99,20 +103,22 @@ def check_inductive(module, timeout=900, parallel=4, xmx="6g", devs=True):
                 (all three are machinery errors); timeouts / out-of-memory leave ok True and are named in `note`.
     """
     spec = SPECS[module]
-    obl = {o[0]: o for o in spec["obligations"]}
-    jobs = [(name, o[1], o[2], o[3], spec["cinit"], name) for name, o in obl.items()]
+    if extra is None:
+        extra = os.environ.get("VERIF_APALACHE_EXTRA") == "1"
+    obl = {o[0]: o for o in spec["obligations"] + (spec.get("optional", []) if extra else [])}
+    jobs = [(name, o[1], o[2], o[3], spec["cinit"], name, o[4] if len(o) > 4 else None) for name, o in obl.items()]
     if devs:
         for cinit, which, dev in spec["devs"]:
             o = obl[which]
-            jobs.append((dev, o[1], o[2], o[3], cinit, dev))
+            jobs.append((dev, o[1], o[2], o[3], cinit, dev, o[4] if len(o) > 4 else None))
     t0 = time.time()
     res = {}
     with concurrent.futures.ThreadPoolExecutor(max_workers=parallel) as ex:
-        futs = {ex.submit(run, module, j[1], j[2], j[3], j[4], j[5], timeout, xmx): j[0] for j in jobs}
+        futs = {ex.submit(run, module, j[1], j[2], j[3], j[4], j[5], timeout, xmx, j[6]): j[0] for j in jobs}
         for f in concurrent.futures.as_completed(futs):
             res[futs[f]] = f.result()
     verdicts, ok, problems, inconclusive = {}, True, [], []
-    for name, _i, _v, _l, _c, _t in jobs:
+    for name, _i, _v, _l, _c, _t, _n in jobs:
         r = res[name]
         st = r["status"]
         is_dev = name not in obl
@@ -163,4 +169,6 @@ def append_run(ctx, module, **kw):
 if __name__ == "__main__":
     import json
     import sys
-    print(json.dumps(check_inductive(sys.argv[1], devs="--nodev" not in sys.argv), indent=1))
+    _kw = {"timeout": int(os.environ.get("VERIF_APALACHE_TIMEOUT", "900"))}
+    print(json.dumps(check_inductive(sys.argv[1], devs="--nodev" not in sys.argv, extra="--extra" in sys.argv or None, **_kw),
+                     indent=1))
